@@ -3,14 +3,19 @@
     The correspondence instantiates the model's hash with the identity: the model store is keyed
     by key pre-image.  Observations are what the real keeper / query server returned.
 
-    A history case carries: the parameters, the universe of names (valid, normalised) and of
-    addresses (id 0 = governance authority), the observation of the initial state and, per
-    step, the message, whether the real handler accepted it, and the observation afterwards:
+    A history case carries: the initial parameters, the universe of names (normalised, parent
+    closed) and of addresses (id 0 = governance authority), the observation of the initial state
+    and, per step, the message (one of the four name messages, MsgUpdateParams, or an InitGenesis
+    call), whether the real code accepted it, and the observation afterwards:
       - records   : GetRecordByName(n) for every n of the universe (stored name, owner, restricted)
       - resolves  : ResolvesTo(n, a) for every n and every a
-      - listings  : ReverseLookup(a) for every a (names, sorted by the harness). *)
+      - listings  : ReverseLookup(a) for every a (one big page; names sorted by the harness)
+      - queries   : the Resolve gRPC query for every n (owner, restricted; None = error)
+      - params    : the Params query (limits, allow_unrestricted_names)
+    and, for the final state, paged ReverseLookup walks (by next key / by offset, forward and
+    reverse) with the total of the first page. *)
 From Coq Require Import Arith NArith List String Ascii Bool.
-From PV Require Export Name.Name Corr.CorrBase.
+From PV Require Export Name.Name Name.NameMsgs Name.NamePaging Name.NameUnicode Corr.CorrBase.
 Import ListNotations.
 Open Scope string_scope.
 Open Scope list_scope.
@@ -21,12 +26,35 @@ Definition o_recs (o : obs) := fst (fst o).
 Definition o_res (o : obs) := snd (fst o).
 Definition o_rev (o : obs) := snd o.
 
+Definition qres := option (N * bool).                   (* Resolve query: owner, restricted *)
+Definition pobs := (params * bool)%type.                (* Params query *)
+Definition obs2 := (obs * list qres * pobs)%type.
+Definition o_obs (o : obs2) : obs := fst (fst o).
+Definition o_qry (o : obs2) : list qres := snd (fst o).
+Definition o_par (o : obs2) : pobs := snd o.
+
+(** address index, limit, mode (0 next keys, 1 offsets, 2 next keys reverse, 3 offsets reverse),
+    pages (in the order returned), total of the first page requested with count_total *)
+Definition pageobs := (nat * nat * N * list (list string) * N)%type.
+
 Inductive case :=
-| CHist (p : params) (names : list string) (addrs : list N) (o0 : obs) (steps : list (op * bool * obs))
+| CHist (p0 : params) (allow0 : bool) (names : list string) (addrs : list N) (o0 : obs2)
+    (steps : list (msg * bool * obs2)) (paged : list pageobs)
 | CPair (p : params) (n1 n2 : string) (valid1 valid2 : bool) (same_key : bool)
     (* Keeper.Normalize(n) == n for both; GetNameKeyPrefix(n1) == GetNameKeyPrefix(n2) *)
-| CNorm (p : params) (raw : string) (norm : option string) (key_ok : bool).
-    (* Keeper.Normalize(raw); GetNameKeyPrefix(raw) returned no error *)
+| CNorm (p : params) (raw : string) (norm : option string) (norm2 : option string) (key_ok : bool)
+    (* Keeper.Normalize(raw); Keeper.Normalize of that result; GetNameKeyPrefix(raw) returned no error *)
+| CNormU (p : params) (raw : string) (norm : option string) (norm2 : option string) (key_ok : bool)
+    (* the same for raw inputs with bytes >= 128 (UTF-8 or not) *)
+| CRoundTrip (p : params) (exported : list binding) (import_ok : bool) (same_after : bool)
+    (* ExportGenesis of the final state of a history, the store emptied through DeleteRecord,
+       InitGenesis of the exported state: did it succeed, and do all lookups read as before *)
+| CSpell (lower upper : list string)
+    (* ReverseLookup of one address spelled in lower-case and in UPPER-case bech32 (both are the
+       same account; bech32 allows either case) *)
+| CEnum (names classes_by_key classes_by_preimage mismatches : N).
+    (* exhaustive enumeration on the Go side: number of names, of classes of the real key
+       function, of classes of the reversed concatenation, of pairs on which the two disagree *)
 
 Definition hid (s : string) : string := s.
 
@@ -37,6 +65,12 @@ Definition obs_eqb (x y : obs) : bool :=
   list_eqb (opt_eqb orec_eqb) (o_recs x) (o_recs y) &&
   list_eqb (list_eqb Bool.eqb) (o_res x) (o_res y) &&
   list_eqb (list_eqb String.eqb) (o_rev x) (o_rev y).
+Definition qres_eqb : qres -> qres -> bool := opt_eqb (pair_eqb N.eqb Bool.eqb).
+Definition params_eqb (x y : params) : bool :=
+  N.eqb (p_min_seg x) (p_min_seg y) && N.eqb (p_max_seg x) (p_max_seg y) && N.eqb (p_max_levels x) (p_max_levels y).
+Definition pobs_eqb : pobs -> pobs -> bool := pair_eqb params_eqb Bool.eqb.
+Definition obs2_eqb (x y : obs2) : bool :=
+  obs_eqb (o_obs x) (o_obs y) && list_eqb qres_eqb (o_qry x) (o_qry y) && pobs_eqb (o_par x) (o_par y).
 
 Fixpoint insert_sorted (x : string) (l : list string) : list string :=
   match l with
@@ -47,12 +81,28 @@ Definition sort_strings (l : list string) : list string := fold_right insert_sor
 
 Definition mem_str (x : string) (l : list string) : bool := existsb (String.eqb x) l.
 
+Fixpoint nodup_str (l : list string) : bool :=
+  match l with
+  | [] => true
+  | x :: r => negb (mem_str x r) && nodup_str r
+  end.
+
 (** the model's observation of a state *)
 Definition to_orec (r : record) : orec := (r_name r, r_addr r, r_restricted r).
-Definition model_obs (p : params) (names : list string) (addrs : list N) (s : state) : obs :=
+Definition model_obs (names : list string) (addrs : list N) (s : state) : obs :=
   (map (fun n => option_map to_orec (get_record hid s n)) names,
    map (fun n => map (fun a => resolves_to hid s n a) addrs) names,
    map (fun a => sort_strings (reverse_lookup s a)) addrs).
+
+(** the Resolve query: Normalize, then GetRecordByName of the normalised name *)
+Definition resolve_query (p : params) (s : state) (n : string) : qres :=
+  match normalize p n with
+  | Some nn => option_map (fun r => (r_addr r, r_restricted r)) (get_record hid s nn)
+  | None => None
+  end.
+
+Definition model_obs2 (names : list string) (addrs : list N) (ps : pstate) : obs2 :=
+  (model_obs names addrs (ps_s ps), map (resolve_query (ps_p ps) (ps_s ps)) names, (ps_p ps, ps_allow ps)).
 
 (** ** the property's checker on the implementation's observations *)
 
@@ -89,130 +139,251 @@ Definition state_checks (names : list string) (addrs : list N) (o : obs) : list 
       "prop:resolve_and_reverse_lookup_disagree" ++
   tag (forallb (fun l => forallb (fun n => mem_str n names) l) (o_rev o))
       "prop:reverse_lookup_lists_unknown_name" ++
+  tag (forallb nodup_str (o_rev o)) "prop:reverse_lookup_lists_name_twice" ++
   tag ((List.length (o_recs o) =? List.length names)%nat && (List.length (o_res o) =? List.length names)%nat
        && (List.length (o_rev o) =? List.length addrs)%nat
        && forallb (fun row => (List.length row =? List.length addrs)%nat) (o_res o))
       "prop:malformed_observation".
 
-(** frame: every universe name other than [n] reads as before; [allow] may admit new records
-    (root creation binds missing intermediate names) *)
-Definition frame_ok (names : list string) (prev cur : obs) (n : string) (allow : string -> option orec -> bool) : bool :=
+(** the Resolve query answers like the record lookup for every name that is valid under the
+    parameters in force (for the others it refuses: Normalize fails; that is only compared with
+    the model) *)
+Definition query_checks (names : list string) (o : obs2) : list string :=
+  let p := fst (o_par o) in
+  tag (forallb (fun x => let '(n, r, q) := x in
+                         match normalize p n with
+                         | Some n' => negb (String.eqb n' n) ||
+                                      qres_eqb q (match r with Some (_, a, rs) => Some (a, rs) | None => None end)
+                         | None => true
+                         end)
+               (combine (combine names (o_recs (o_obs o))) (o_qry o))
+       && (List.length (o_qry o) =? List.length names)%nat)
+      "prop:resolve_query_disagrees_with_record".
+
+(** frame: every universe name other than those in [ns] reads as before; [allow] may admit new
+    records (root creation binds missing intermediate names) *)
+Definition frame_ok (names : list string) (prev cur : obs) (ns : list string) (allow : string -> option orec -> bool) : bool :=
   forallb (fun x => let '(m, before, after) := x in
-                    String.eqb m n || opt_eqb orec_eqb before after
+                    mem_str m ns || opt_eqb orec_eqb before after
                     || (match before with None => allow m after | Some _ => false end))
           (combine (combine names (o_recs prev)) (o_recs cur)).
 
 Definition no_new (_ : string) (_ : option orec) : bool := false.
 
-(** authorisation and effect of one accepted / rejected message, judged on the observations
-    the implementation gave before and after it *)
-Definition step_checks (p : params) (names : list string) (prev : obs) (o : op) (accepted : bool) (cur : obs)
-  : list string :=
-  if negb accepted then tag (obs_eqb prev cur) "prop:rejected_message_changed_state"
+Definition is_some_some (x : option (option orec)) (v : orec) : bool := opt_eqb (opt_eqb orec_eqb) x (Some (Some v)).
+Definition is_some_none (x : option (option orec)) : bool := opt_eqb (opt_eqb orec_eqb) x (Some None).
+
+(** authorisation and effect of one accepted name message under the parameters [p] the
+    implementation reported before it, judged on the observations before and after it.
+    BindName is judged on the DIRECT PARENT OF THE RESULTING NAME (everything after its first
+    dot), however the message split the name into record and parent. *)
+Definition op_checks (p : params) (names : list string) (prev : obs) (o : op) (cur : obs) : list string :=
+  match o with
+  | OpBind parent signer child owner restr =>
+      match normalize p (child ++ "." ++ parent) with
+      | Some n =>
+          (match parent_of n with
+           | Some dp =>
+               match rec_of names prev dp with
+               | Some (Some (_, pa, pr)) =>
+                   tag (negb pr || N.eqb pa signer) "prop:bind_under_restricted_parent_by_non_owner"
+               | Some None => ["prop:bind_without_existing_parent"]
+               | None => ["corr:direct_parent_outside_universe"]
+               end
+           | None => ["prop:bind_without_existing_parent"]
+           end) ++
+          (if mem_str n names then
+             tag (is_some_none (rec_of names prev n)) "prop:bind_over_existing_name" ++
+             tag (is_some_some (rec_of names cur n) (n, owner, restr)) "prop:bind_result_wrong" ++
+             tag (frame_ok names prev cur [n] no_new) "prop:other_name_changed"
+           else ["corr:bound_name_outside_universe"])
+      | None => ["prop:invalid_name_bound"]
+      end
+  | OpModify signer name owner restr =>
+      match normalize p name with
+      | Some n =>
+          (match rec_of names prev n with
+           | Some (Some (_, a, _)) => tag (N.eqb signer gov_authority || N.eqb signer a) "prop:modify_by_non_owner"
+           | _ => ["prop:modify_of_unbound_name"]
+           end) ++
+          tag (is_some_some (rec_of names cur n) (n, owner, restr)) "prop:modify_result_wrong" ++
+          tag (frame_ok names prev cur [n] no_new) "prop:other_name_changed"
+      | None => ["prop:invalid_name_modified"]
+      end
+  | OpDelete name signer =>
+      match normalize p name with
+      | Some n =>
+          (match rec_of names prev n with
+           | Some (Some (_, a, _)) => tag (N.eqb signer a) "prop:delete_by_non_owner"
+           | _ => ["prop:delete_of_unbound_name"]
+           end) ++
+          tag (is_some_none (rec_of names cur n)) "prop:delete_result_wrong" ++
+          tag (frame_ok names prev cur [n] no_new) "prop:other_name_changed"
+      | None => ["prop:invalid_name_deleted"]
+      end
+  | OpCreateRoot signer name owner restr =>
+      tag (N.eqb signer gov_authority) "prop:root_created_without_authority" ++
+      match normalize p name with
+      | Some n =>
+          tag (is_some_none (rec_of names prev n)) "prop:root_over_existing_name" ++
+          tag (is_some_some (rec_of names cur n) (n, owner, restr)) "prop:root_result_wrong" ++
+          tag (frame_ok names prev cur [n]
+                 (fun m after => opt_eqb orec_eqb after (Some (m, owner, restr))))
+              "prop:other_name_changed"
+      | None => ["prop:invalid_name_created"]
+      end
+  end.
+
+(** an accepted InitGenesis: every binding is valid under the imported parameters, resolvable
+    afterwards exactly as written (normalised), was free before, no two bindings are the same
+    name, and nothing else changed *)
+Definition genesis_checks (p : params) (names : list string) (prev cur : obs) (bs : list binding) : list string :=
+  let norm := map (fun b : binding => let '(raw, a, r) := b in (normalize p raw, a, r)) bs in
+  let ns := flat_map (fun x : option string * addr * bool => match fst (fst x) with Some n => [n] | None => [] end) norm in
+  tag (forallb (fun x : option string * addr * bool => match fst (fst x) with Some _ => true | None => false end) norm)
+      "prop:genesis_accepted_invalid_name" ++
+  tag (nodup_str ns) "prop:genesis_accepted_duplicate_name" ++
+  tag (forallb (fun x : option string * addr * bool =>
+                  let '(on, a, r) := x in
+                  match on with
+                  | Some n => negb (mem_str n names) ||
+                              (is_some_none (rec_of names prev n) && is_some_some (rec_of names cur n) (n, a, r))
+                  | None => true
+                  end) norm)
+      "prop:genesis_binding_not_resolvable" ++
+  tag (frame_ok names prev cur ns no_new) "prop:other_name_changed".
+
+Definition step_checks (names : list string) (prev : obs2) (m : msg) (accepted : bool) (cur : obs2) : list string :=
+  if negb accepted then tag (obs2_eqb prev cur) "prop:rejected_message_changed_state"
   else
-    match o with
-    | OpBind parent signer child owner restr =>
-        (match normalize p parent with
-         | Some pn =>
-             match rec_of names prev pn with
-             | Some (Some (_, pa, pr)) =>
-                 tag (negb pr || N.eqb pa signer) "prop:bind_under_restricted_parent_by_non_owner"
-             | _ => ["prop:bind_without_existing_parent"]
-             end
-         | None => ["prop:bind_without_existing_parent"]
-         end) ++
-        (match normalize p (child ++ "." ++ parent) with
-         | Some n =>
-             tag (opt_eqb (opt_eqb orec_eqb) (rec_of names prev n) (Some None)) "prop:bind_over_existing_name" ++
-             tag (opt_eqb (opt_eqb orec_eqb) (rec_of names cur n) (Some (Some (n, owner, restr)))) "prop:bind_result_wrong" ++
-             tag (frame_ok names prev cur n no_new) "prop:other_name_changed"
-         | None => ["prop:invalid_name_bound"]
-         end)
-    | OpModify signer name owner restr =>
-        match normalize p name with
-        | Some n =>
-            (match rec_of names prev n with
-             | Some (Some (_, a, _)) => tag (N.eqb signer gov_authority || N.eqb signer a) "prop:modify_by_non_owner"
-             | _ => ["prop:modify_of_unbound_name"]
-             end) ++
-            tag (opt_eqb (opt_eqb orec_eqb) (rec_of names cur n) (Some (Some (n, owner, restr)))) "prop:modify_result_wrong" ++
-            tag (frame_ok names prev cur n no_new) "prop:other_name_changed"
-        | None => ["prop:invalid_name_modified"]
-        end
-    | OpDelete name signer =>
-        match normalize p name with
-        | Some n =>
-            (match rec_of names prev n with
-             | Some (Some (_, a, _)) => tag (N.eqb signer a) "prop:delete_by_non_owner"
-             | _ => ["prop:delete_of_unbound_name"]
-             end) ++
-            tag (opt_eqb (opt_eqb orec_eqb) (rec_of names cur n) (Some None)) "prop:delete_result_wrong" ++
-            tag (frame_ok names prev cur n no_new) "prop:other_name_changed"
-        | None => ["prop:invalid_name_deleted"]
-        end
-    | OpCreateRoot signer name owner restr =>
-        tag (N.eqb signer gov_authority) "prop:root_created_without_authority" ++
-        match normalize p name with
-        | Some n =>
-            tag (opt_eqb (opt_eqb orec_eqb) (rec_of names prev n) (Some None)) "prop:root_over_existing_name" ++
-            tag (opt_eqb (opt_eqb orec_eqb) (rec_of names cur n) (Some (Some (n, owner, restr)))) "prop:root_result_wrong" ++
-            tag (frame_ok names prev cur n
-                   (fun m after => opt_eqb orec_eqb after (Some (m, owner, restr))))
-                "prop:other_name_changed"
-        | None => ["prop:invalid_name_created"]
-        end
+    match m with
+    | MOp o =>
+        op_checks (fst (o_par prev)) names (o_obs prev) o (o_obs cur) ++
+        tag (pobs_eqb (o_par prev) (o_par cur)) "prop:name_message_changed_params"
+    | MParams signer p allow =>
+        tag (N.eqb signer gov_authority) "prop:params_changed_without_authority" ++
+        tag (pobs_eqb (o_par cur) (p, allow)) "prop:params_result_wrong" ++
+        tag (obs_eqb (o_obs prev) (o_obs cur)) "prop:params_update_changed_names"
+    | MGenesis p allow bs =>
+        genesis_checks p names (o_obs prev) (o_obs cur) bs ++
+        tag (pobs_eqb (o_par cur) (p, allow)) "prop:params_result_wrong"
     end.
+
+(** ** paged ReverseLookup on the final state *)
+
+Definition model_page_sizes (s : state) (a : N) (limit : nat) (mode : N) : option (list nat) :=
+  let l := idx_view s a in
+  let hit := fun r : record => N.eqb (r_addr r) a in
+  let fuel := S (S (List.length l)) in
+  option_map (map (@List.length record))
+    (if (N.eqb mode 0 || N.eqb mode 2)%bool then follow_keys String.eqb hit fuel l None limit
+     else follow_offsets String.eqb hit fuel l 0 limit).
+
+Definition paged_checks (addrs : list N) (final : obs) (ms : state) (x : pageobs) : list string :=
+  let '(ai, limit, mode, pages, total) := x in
+  let listing := nth ai (o_rev final) [] in
+  let a := nth ai addrs 0%N in
+  tag (list_eqb String.eqb (sort_strings (List.concat pages)) listing)
+      "prop:paged_reverse_lookup_incomplete_or_duplicated" ++
+  tag (forallb (fun pg => (List.length pg <=? limit)%nat) pages) "prop:page_longer_than_limit" ++
+  tag (N.eqb total (N.of_nat (List.length listing))) "prop:paged_total_wrong" ++
+  tag (opt_eqb (list_eqb Nat.eqb) (model_page_sizes ms a limit mode) (Some (map (@List.length string) pages)))
+      "corr:page_sizes".
 
 (** ** histories *)
 
 (** one step with everything its checks need: the model's verdict and observation after it,
     the implementation's observation before it, the message, the implementation's verdict and
     observation after it *)
-Definition astep := (bool * obs * obs * op * bool * obs)%type.
+Definition astep := (bool * obs2 * obs2 * msg * bool * obs2)%type.
 
-Fixpoint annotate (p : params) (names : list string) (addrs : list N) (ms : state) (prev : obs)
-  (steps : list (op * bool * obs)) : list astep :=
+Fixpoint annotate (names : list string) (addrs : list N) (ms : pstate) (prev : obs2)
+  (steps : list (msg * bool * obs2)) : list astep * pstate :=
   match steps with
-  | [] => []
-  | (o, acc, cur) :: rest =>
-      let '(ms', r) := step hid p ms o in
-      (match r with Ok => true | Err => false end, model_obs p names addrs ms', prev, o, acc, cur)
-        :: annotate p names addrs ms' cur rest
+  | [] => ([], ms)
+  | (m, acc, cur) :: rest =>
+      let '(ms', r) := pstep hid ms m in
+      let '(l, final) := annotate names addrs ms' cur rest in
+      ((match r with Ok => true | Err => false end, model_obs2 names addrs ms', prev, m, acc, cur) :: l, final)
   end.
 
-Definition check_astep (p : params) (names : list string) (addrs : list N) (x : astep) : list string :=
-  let '(macc, mobs, prev, o, acc, cur) := x in
+Definition check_astep (names : list string) (addrs : list N) (x : astep) : list string :=
+  let '(macc, mobs, prev, m, acc, cur) := x in
   tag (Bool.eqb macc acc) "corr:accept" ++
-  tag (list_eqb (opt_eqb orec_eqb) (o_recs mobs) (o_recs cur)) "corr:records" ++
-  tag (list_eqb (list_eqb Bool.eqb) (o_res mobs) (o_res cur)) "corr:resolves_to" ++
-  tag (list_eqb (list_eqb String.eqb) (o_rev mobs) (o_rev cur)) "corr:reverse_lookup" ++
-  state_checks names addrs cur ++
-  step_checks p names prev o acc cur.
+  tag (list_eqb (opt_eqb orec_eqb) (o_recs (o_obs mobs)) (o_recs (o_obs cur))) "corr:records" ++
+  tag (list_eqb (list_eqb Bool.eqb) (o_res (o_obs mobs)) (o_res (o_obs cur))) "corr:resolves_to" ++
+  tag (list_eqb (list_eqb String.eqb) (o_rev (o_obs mobs)) (o_rev (o_obs cur))) "corr:reverse_lookup" ++
+  tag (list_eqb qres_eqb (o_qry mobs) (o_qry cur)) "corr:resolve_query" ++
+  tag (pobs_eqb (o_par mobs) (o_par cur)) "corr:params" ++
+  state_checks names addrs (o_obs cur) ++
+  query_checks names cur ++
+  step_checks names prev m acc cur.
 
-Definition universe_ok (p : params) (names : list string) : bool :=
-  forallb (fun n => opt_eqb String.eqb (normalize p n) (Some n)) names.
+(** names of the universe are in storage format (under limits wider than any the histories use)
+    and the universe is closed under direct parents *)
+Definition loose_params : params := {| p_min_seg := 1; p_max_seg := 1000; p_max_levels := 1000 |}.
+Definition universe_ok (names : list string) : bool :=
+  forallb (fun n => opt_eqb String.eqb (normalize loose_params n) (Some n)
+                    && match parent_of n with Some dp => mem_str dp names | None => true end) names.
+
+Definition last_obs (o0 : obs2) (steps : list (msg * bool * obs2)) : obs2 :=
+  match rev steps with
+  | (_, _, o) :: _ => o
+  | [] => o0
+  end.
+
+Definition is_some {A} (x : option A) : bool := match x with Some _ => true | None => false end.
 
 Definition check (c : case) : list string :=
   match c with
-  | CHist p names addrs o0 steps =>
-      tag (universe_ok p names) "corr:universe_name_not_valid" ++
-      tag (obs_eqb (model_obs p names addrs init) o0) "corr:initial_state" ++
-      state_checks names addrs o0 ++
-      first_failure (check_astep p names addrs) 1 (annotate p names addrs init o0 steps)
+  | CHist p0 allow0 names addrs o0 steps paged =>
+      let '(asteps, final) := annotate names addrs (pstart p0 allow0) o0 steps in
+      tag (universe_ok names) "corr:universe_name_not_valid" ++
+      tag (obs2_eqb (model_obs2 names addrs (pstart p0 allow0)) o0) "corr:initial_state" ++
+      state_checks names addrs (o_obs o0) ++
+      query_checks names o0 ++
+      first_failure (check_astep names addrs) 1 asteps ++
+      flat_map (paged_checks addrs (o_obs (last_obs o0 steps)) (ps_s final)) paged
   | CPair p n1 n2 v1 v2 same =>
       tag (Bool.eqb (opt_eqb String.eqb (normalize p n1) (Some n1)) v1
            && Bool.eqb (opt_eqb String.eqb (normalize p n2) (Some n2)) v2) "corr:valid" ++
       tag (Bool.eqb (opt_eqb String.eqb (name_key_preimage n1) (name_key_preimage n2)
-                     && match name_key_preimage n1 with Some _ => true | None => false end) same)
+                     && is_some (name_key_preimage n1)) same)
           "corr:key_equality" ++
       tag (negb (v1 && v2 && same && negb (String.eqb n1 n2))) "prop:distinct_names_share_key"
-  | CNorm p raw norm key_ok =>
+  | CNorm p raw norm norm2 key_ok =>
       tag (opt_eqb String.eqb (normalize p raw) norm) "corr:normalize" ++
-      tag (Bool.eqb (match name_key_preimage raw with Some _ => true | None => false end) key_ok) "corr:key_error" ++
+      tag (Bool.eqb (is_some (name_key_preimage raw)) key_ok) "corr:key_error" ++
+      tag (Bool.eqb (is_some norm) (doc_valid p (normalize_name raw))) "corr:documented_rule" ++
+      (* a name that is valid and in storage format by the DOCUMENTED rule must come back from
+         Normalize unchanged: otherwise it and its re-spelling are two valid names with one record *)
+      (if doc_valid p raw then tag (opt_eqb String.eqb norm (Some raw)) "prop:valid_name_respelled_by_normalize" else []) ++
       (match norm with
-       | Some n => tag key_ok "prop:valid_name_without_key"
+       | Some n =>
+           tag (key_ok || (p_min_seg p =? 0)%N) "prop:valid_name_without_key" ++
+           tag (opt_eqb String.eqb norm2 (Some n)) "prop:normalize_not_idempotent"
        | None => []
        end)
+  | CNormU p raw norm norm2 key_ok =>
+      (match normalize_utf8 p raw with
+       | Some m => tag (opt_eqb String.eqb m norm) "corr:normalize_utf8"
+       | None => []       (* a rune outside the modelled tables *)
+       end) ++
+      (match norm with
+       | Some n =>
+           tag (key_ok || (p_min_seg p =? 0)%N) "prop:valid_name_without_key" ++
+           tag (opt_eqb String.eqb norm2 (Some n)) "prop:normalize_not_idempotent"
+       | None => []
+       end)
+  | CRoundTrip p exported ok same =>
+      (* not a clause of C15 (it belongs to C18): compared with the model only *)
+      tag (Bool.eqb (is_some (import_bindings hid p init exported)) ok) "corr:export_import" ++
+      tag (negb ok || same) "corr:export_import_changed_lookups"
+  | CSpell lower upper =>
+      tag (list_eqb String.eqb lower upper) "prop:reverse_lookup_differs_for_upper_case_address"
+  | CEnum names by_key by_pre mism =>
+      tag (N.eqb by_key by_pre && N.eqb mism 0) "corr:key_classes_differ_from_preimage_classes" ++
+      tag (N.leb by_key names) "corr:malformed_enumeration"
   end.
 
 Definition check_all := check_list check.
